@@ -5,6 +5,7 @@ import (
 	"fmt"
 	"math/rand"
 	"regexp"
+	"sort"
 	"strings"
 
 	"google.golang.org/protobuf/encoding/protojson"
@@ -168,10 +169,18 @@ func acceptClass(values []string) string {
 		}
 		parts = append(parts, sp+";"+q)
 	}
-	if len(values) > 1 {
-		parts = append(parts, "split")
+	// the class is the set of range kinds, not their order
+	sort.Strings(parts)
+	uniq := parts[:0]
+	for i, x := range parts {
+		if i == 0 || x != parts[i-1] {
+			uniq = append(uniq, x)
+		}
 	}
-	return strings.Join(parts, ",")
+	if len(values) > 1 {
+		uniq = append(uniq, "split")
+	}
+	return strings.Join(uniq, ",")
 }
 
 // ------------------------------------------------------------ execution
